@@ -71,11 +71,12 @@ extern "C" void h_c03_ingest(unsigned long nshards) {
     verif_assume(mn >= 1 && mn <= mx);
     n->config_.min_manifest_ttl = std::chrono::seconds(mn); n->config_.max_manifest_ttl = std::chrono::seconds(mx);
     verif_env::g_steady_ns = 9000 * kNs + static_cast<long long>(nondet_u8("steady_8ths") & 7) * verif_env::kEighth;
-    const std::uint32_t wall_s = nondet_u16("wall_s") & 0x3FF; const std::uint8_t wall_8 = nondet_u8("wall_8ths") & 7;
-    verif_env::g_system_ns = static_cast<long long>(wall_s) * kNs + wall_8 * verif_env::kEighth;
-    const std::uint32_t exp_s = nondet_u16("expires_s") & 0x3FF; const std::uint8_t exp_8 = nondet_u8("expires_8ths") & 7;
+    // whole-second wall clock and expiry in this job (sub-second parts are covered for the arithmetic in job ttl-kernel)
+    const std::uint32_t wall_s = nondet_u16("wall_s") & 0x3FF;
+    verif_env::g_system_ns = static_cast<long long>(wall_s) * kNs;
+    const std::uint32_t exp_s = nondet_u16("expires_s") & 0x3FF;
     g_manifest = protocol::Manifest{}; g_manifest.chunk_id[0] = 0xC1; g_manifest.threshold = nondet_u8("threshold");
-    g_manifest.expires_at = std::chrono::system_clock::time_point(std::chrono::nanoseconds(static_cast<long long>(exp_s) * kNs + exp_8 * verif_env::kEighth));
+    g_manifest.expires_at = std::chrono::system_clock::time_point(std::chrono::nanoseconds(static_cast<long long>(exp_s) * kNs));
     for (unsigned long i = 0; i < nshards; ++i) { protocol::KeyShard s{}; s.index = static_cast<std::uint8_t>(i + 1); g_manifest.shards.push_back(s); }
     const bool dec = nondet_bool("decodable"); g_decodable = verif_concretize(dec, 2); g_plans = 0;
     const bool ok = n->ingest_manifest("eph://x");
